@@ -120,6 +120,8 @@ def run_check(pid, tier, seed, args):
     for e in res["harness_errors"][:5]:
         print("HARNESS-ERROR property=%s case=%s\n%s" % (prop.ID, json.dumps(e["case"], default=str)[:300], e["error"]))
     states = sum(a["states"] for a in res["layers"])
+    if res.get("notes", {}).get("history_states"):
+        states = res["notes"]["history_states"]      # C19: distinct object-graph fingerprints reached by the searches
     execs = sum(a["execs"] for a in res["layers"])
     ops = sum(a["ops"] for a in res["layers"])
     nontriv = sum(a["nontrivial"] for a in res["layers"])
